@@ -83,50 +83,72 @@ fn cc_tick_lowered_only_by_backoff_or_drain_entry() {
 
 #[kani::proof]
 #[kani::stub(srtla_core::selection::link_cc::LinkCongestionState::update_loss_ewma, loss_ewma_frame_only)]
-fn cc_tick_backoff_085_never_below_delivered_never_raising() {
+fn cc_tick_backoff_never_raises_never_below_delivered() {
     let (p, q, obs, _now) = step();
     kani::assume(p.target_bps != FLOOR);          // the floor case is the re-seed finding, isolated below
     if q.state == CcState::BackingOff {
-        assert!(q.target_bps <= p.target_bps);                                   // never raising
+        assert!(q.target_bps <= p.target_bps);                                   // a loss back-off never raises the target
         let delivered = if obs < p.target_bps { obs } else { p.target_bps };
-        assert!(q.target_bps >= delivered);                                      // never below the measured delivered rate
-        assert!((q.target_bps as u64) * 1000 + 1000 >= (p.target_bps as u64) * 850);   // x0.85 (1 bps truncation)
-        assert!(q.target_bps == (if delivered > ((p.target_bps as u64 * 850) / 1000) as u64 { delivered } else { ((p.target_bps as u64 * 850) / 1000) as u64 }).max(FLOOR)
-            || q.target_bps + 1 == (if delivered > ((p.target_bps as u64 * 850) / 1000) as u64 { delivered } else { ((p.target_bps as u64 * 850) / 1000) as u64 }).max(FLOOR)
-            || q.target_bps == 1 + (if delivered > ((p.target_bps as u64 * 850) / 1000) as u64 { delivered } else { ((p.target_bps as u64 * 850) / 1000) as u64 }).max(FLOOR));
+        assert!(q.target_bps >= delivered);                                      // ... and never cuts below the measured delivered rate
     }
     kani::cover!(q.state == CcState::BackingOff && q.target_bps < p.target_bps);
 }
 
+// numeric factor (x0.85): needs reasoning through the f64 multiplier/divider; thorough tier only, may not terminate
 #[kani::proof]
 #[kani::stub(srtla_core::selection::link_cc::LinkCongestionState::update_loss_ewma, loss_ewma_frame_only)]
-fn cc_tick_drain_075_once() {
+fn cc_tick_backoff_085() {
+    let (p, q, _obs, _now) = step();
+    kani::assume(p.target_bps != FLOOR);
+    if q.state == CcState::BackingOff {
+        assert!((q.target_bps as u64) * 1000 + 1000 >= (p.target_bps as u64) * 850);   // x0.85 (1 bps truncation)
+    }
+}
+
+#[kani::proof]
+#[kani::stub(srtla_core::selection::link_cc::LinkCongestionState::update_loss_ewma, loss_ewma_frame_only)]
+fn cc_tick_drain_cuts_once() {
     let (p, q, _obs, _now) = step();
     kani::assume(p.target_bps != FLOOR);
     if q.state == CcState::Drain {
-        if p.state != CcState::Drain {
-            assert!(q.target_bps <= p.target_bps);
-            assert!((q.target_bps as u64) * 1000 + 1000 >= (p.target_bps as u64) * 750);           // x0.75 ...
-            assert!((q.target_bps as u64) * 1000 <= (p.target_bps as u64) * 750 + 1000 || q.target_bps == FLOOR);
-        } else {
-            assert!(q.target_bps == p.target_bps);                                                     // ... once
-        }
+        if p.state != CcState::Drain { assert!(q.target_bps <= p.target_bps); }      // the cut happens on entry ...
+        else { assert!(q.target_bps == p.target_bps); }                               // ... and only once
     }
-    kani::cover!(q.state == CcState::Drain && p.state != CcState::Drain);
+    kani::cover!(q.state == CcState::Drain && p.state != CcState::Drain && q.target_bps < p.target_bps);
     kani::cover!(q.state == CcState::Drain && p.state == CcState::Drain);
 }
 
 #[kani::proof]
 #[kani::stub(srtla_core::selection::link_cc::LinkCongestionState::update_loss_ewma, loss_ewma_frame_only)]
-fn cc_tick_growth_at_most_6_percent_and_2x_measured() {
+fn cc_tick_grows_only_when_climbing_and_never_beyond_2x_measured() {
     let (p, q, obs, _now) = step();
     kani::assume(p.target_bps != FLOOR);
     if q.target_bps > p.target_bps {
-        assert!((q.target_bps as u64) * 1000 <= (p.target_bps as u64) * 1060 + 1000);     // <= 6 % per tick
-        assert!((q.target_bps as u64) <= 2 * obs.min(1_000_000_000) + 1);                             // never beyond twice the measured rate
         assert!(q.state == CcState::Climbing);
+        assert!(q.target_bps <= 2 * obs.min(1_000_000_000) + 1);                      // never to beyond twice the measured rate
     }
     kani::cover!(q.target_bps > p.target_bps);
+}
+
+// numeric factors (x0.75, <= 6 %): reasoning through the f64 multiplier/divider; thorough tier only, may not terminate
+#[kani::proof]
+#[kani::stub(srtla_core::selection::link_cc::LinkCongestionState::update_loss_ewma, loss_ewma_frame_only)]
+fn cc_tick_drain_075() {
+    let (p, q, _obs, _now) = step();
+    kani::assume(p.target_bps != FLOOR);
+    if q.state == CcState::Drain && p.state != CcState::Drain {
+        assert!((q.target_bps as u64) * 1000 + 1000 >= (p.target_bps as u64) * 750);
+        assert!((q.target_bps as u64) * 1000 <= (p.target_bps as u64) * 750 + 1000 || q.target_bps == FLOOR);
+    }
+}
+#[kani::proof]
+#[kani::stub(srtla_core::selection::link_cc::LinkCongestionState::update_loss_ewma, loss_ewma_frame_only)]
+fn cc_tick_growth_at_most_6_percent() {
+    let (p, q, _obs, _now) = step();
+    kani::assume(p.target_bps != FLOOR);
+    if q.target_bps > p.target_bps {
+        assert!((q.target_bps as u64) * 1000 <= (p.target_bps as u64) * 1060 + 1000);     // <= 6 % per tick
+    }
 }
 
 // KNOWN FINDING (known_findings.txt): the seeding branch is keyed on target == floor, not on "first tick after
